@@ -1,0 +1,26 @@
+//go:build verif
+
+// Contracts for contract-based deductive verification (checked by /verif/govc).
+// This file is comment-only and compiled only with the build tag "verif".
+
+package balloons
+
+// ---- C12 (balloons): a container that opted out of CPU pinning is left alone by AllocateResources --------------------
+// (`standalone`: the callers in this package keep the assumed frame of AllocateResources; this contract is verified on
+// the function itself.) A container with the cpu.preserve annotation, or one matched by a configured preserve rule, is
+// not assigned to any balloon and is told neither a CPU set, nor CPU shares, nor memory nodes; balloons and free CPUs
+// stay as they are.
+//@ pure ctrPreserveCpu(c cache.Container) bool
+//@ iface github.com/containers/nri-plugins/pkg/resmgr/cache.Container.PreserveCpuResources
+//@   modifies nothing
+//@   ensures result == ctrPreserveCpu(self)
+//@ pure untouched(p *balloons) bool = pinnedCpus == old(pinnedCpus) && pinnedMems == old(pinnedMems) && cpuShares == old(cpuShares) &&
+//@     p.balloons == old(p.balloons) && p.freeCpus.Equals(old(p.freeCpus))
+// The contract covers exactly the opted-out case (precondition); for other containers AllocateResources is not
+// constrained by it.
+//@ pure optedOut(p *balloons, c cache.Container) bool = ctrPreserveCpu(c) ||
+//@     (p.bpoptions.Preserve != nil && cfgapi.anyExprMatches(p.bpoptions.Preserve.MatchExpressions, len(p.bpoptions.Preserve.MatchExpressions), c))
+//@ func (*balloons).AllocateResources standalone tags=C12
+//@   requires p != nil && c != nil && p.bpoptions != nil && (p.bpoptions.Preserve != nil ==> cfgapi.exprsOK(p.bpoptions.Preserve.MatchExpressions))
+//@   requires optedOut(p, c)
+//@   ensures[C12] result == nil && untouched(p)
